@@ -26,6 +26,12 @@ func (w *Worker) normBig(b BigVal) BigVal {
 	if b.T != nil && b.T.IsConst() {
 		return BigVal{C: toSigned(b.T.BigVal(), b.T.W)}
 	}
+	if b.T != nil {
+		// drop known-zero high bits (keep one as the sign bit)
+		if kz := knownZeroHigh(b.T); kz > 1 && b.T.W-kz+1 >= 2 {
+			return BigVal{T: w.tc.Extract(b.T, b.T.W-kz, 0)}
+		}
+	}
 	return b
 }
 
